@@ -22,7 +22,7 @@ META = {
 LEVEL = META['level']
 RULE = ('a case = one member list executed both ways from one initial state; distinct by (configuration, initial state, bundle bytes); non-trivial = at least two members and at least one write')
 ASSUMPTIONS = ['both executions use the in-process frame pipeline (bytes in, bytes out) with identical configuration and initial values']
-REQUIRED = ['bundle:member-with-more-data-status', 'bundle:same-read-around-attribute-write', 'bundle:reply>32KiB', 'members:standard-object', 'bundles', 'members', 'members:failing', 'members:unroutable-alone', 'members:write', 'members:read', 'members:attribute-service', 'bundle:size>=10',
+REQUIRED = ['members:attribute-service-to-missing-object', 'members:same-class-two-instances', 'bundle:member-with-more-data-status', 'bundle:same-read-around-attribute-write', 'bundle:reply>32KiB', 'members:standard-object', 'bundles', 'members', 'members:failing', 'members:unroutable-alone', 'members:write', 'members:read', 'members:attribute-service', 'bundle:size>=10',
             'monitor:member-bytes-equal', 'monitor:state-equal', 'monitor:offset-table', 'bundle:overlapping-writes']
 TIMEOUT = {'quick': 300, 'thorough': 2400}
 SOFT = {'quick': 30, 'thorough': 600}
@@ -116,7 +116,7 @@ def run_bundle(ctx, cfg, members, init, wit):
     if len(members) >= 10:
         ctx.count('bundle:size>=10')
     for i, (m, (stB, repB, outB, unchanged)) in enumerate(zip(members, singles)):
-        kind = next(k for k in ('read_tag', 'read_frag', 'write_tag', 'write_frag', 'get_attribute_single', 'set_attribute_single', 'get_attributes_all') if k in m)
+        kind = next(k for k in ('read_tag', 'read_frag', 'write_tag', 'write_frag', 'get_attribute_single', 'set_attribute_single', 'get_attributes_all', 'get_attribute_list') if k in m)
         ctx.count('members:' + ('write' if kind.startswith('write') else 'read' if kind.startswith('read') else 'attribute-service'))
         inb = rc.dec_reply(slices[i])
         if inb['status'] not in (0, 6):
@@ -215,6 +215,27 @@ def run(ctx):
             m = {'path': {'segment': std}, 'get_attribute_single': True} if len(std) == 3 else {'path': {'segment': std}, 'get_attributes_all': True}
             members.insert(rng.randrange(len(members) + 1), m)
             ctx.count('members:standard-object')
+        if rng.random() < 0.35:
+            # the same service for two instances of one class (the instance and the class-level object 0, or two instances) in one
+            # bundle: each member is answered by the object it names
+            cls = rng.choice([1, 1, 0xF5, 0xF6, 2, 6])
+            svc = rng.choice(['get_attributes_all', 'get_attributes_all', 'get_attribute_list'])
+            for ins in rng.sample([0, 1, 1, 2], 2):
+                m = {'path': {'segment': [{'class': cls}, {'instance': ins}]}}
+                m[svc] = True if svc == 'get_attributes_all' else [1, 2, 3]
+                members.insert(rng.randrange(len(members) + 1), m)
+            ctx.count('members:same-class-two-instances')
+        if rng.random() < 0.35:
+            # attribute services addressed to objects that do not exist (unknown class, unknown instance): refused when sent alone;
+            # inside a bundle they must fail too, and must not be carried out on whatever object handles the bundle
+            seg = rng.choice([[{'class': 0x77}, {'instance': 1}, {'attribute': 1}], [{'class': 1}, {'instance': 9}, {'attribute': 1}],
+                              [{'class': 2}, {'instance': 7}, {'attribute': rng.choice([1, 2])}], [{'class': 0x93}, {'instance': 77}, {'attribute': 2}]])
+            if rng.random() < 0.5:
+                m = {'path': {'segment': seg}, 'get_attribute_single': True}
+            else:
+                m = {'path': {'segment': seg}, 'set_attribute_single': {'data': [rng.randrange(256) for _ in range(rng.choice([1, 2, 4, 8, 16, 20]))]}}
+            members.insert(rng.randrange(len(members) + 1), m)
+            ctx.count('members:attribute-service-to-missing-object')
         if rng.random() < 0.3 and len(members) > 1:
             members.append(members[rng.randrange(len(members))])      # a duplicate
         addressed = [e for e in cfg if e[3] and e[1] in rc_types()]
